@@ -122,6 +122,17 @@ func (m *MemCache) retrieve(id uint16, addr net.IP) (TemplateRecord, bool) {
 	return v.Template, ok
 }
 
+// MarshalJSON encodes the shard under its read lock: Dump runs while
+// the workers are still inserting templates
+func (s *TemplatesShard) MarshalJSON() ([]byte, error) {
+	s.RLock()
+	defer s.RUnlock()
+
+	return json.Marshal(struct {
+		Templates map[string]Data
+	}{s.Templates})
+}
+
 // Dump saves the current templates to hard disk
 func (m MemCache) Dump(cacheFile string) error {
 	b, err := json.Marshal(
